@@ -134,14 +134,18 @@ def run_case(i, rng, rec, tier, state):
                         rec.ok("unknown-key-KeyError")
                     except Exception as e:
                         rec.violation("unknown-key-KeyError", f"get_shape/unknown-name-raises-{type(e).__name__}", {"name": bad})
-            for doi in ("10.0000/unknown", "", "science.1220869"):
-                try:
-                    cf.DOI_SHAPE_REPOSITORIES[doi]
-                    rec.violation("unknown-key-KeyError", "DOI_SHAPE_REPOSITORIES/unknown-doi-accepted", {"doi": doi})
-                except KeyError:
-                    rec.ok("unknown-key-KeyError")
-                except Exception as e:
-                    rec.violation("unknown-key-KeyError", f"DOI_SHAPE_REPOSITORIES/unknown-doi-raises-{type(e).__name__}", {"doi": doi})
+            # asked three times each (a lazy mapping may remember a failed lookup), with lookups of known DOIs in between
+            for attempt in range(3):
+                for doi in ("10.0000/unknown", "", "science.1220869", "10.1126/science.0000000"):
+                    try:
+                        got = cf.DOI_SHAPE_REPOSITORIES[doi]
+                        rec.violation("unknown-key-KeyError", "DOI_SHAPE_REPOSITORIES/unknown-doi-accepted" + ("" if attempt == 0 else "-when-asked-again"),
+                                      {"doi": doi, "attempt": attempt + 1, "returned": repr(got)[:80]})
+                    except KeyError:
+                        rec.ok("unknown-key-KeyError")
+                    except Exception as e:
+                        rec.violation("unknown-key-KeyError", f"DOI_SHAPE_REPOSITORIES/unknown-doi-raises-{type(e).__name__}", {"doi": doi, "attempt": attempt + 1})
+                len(cf.DOI_SHAPE_REPOSITORIES[SCIENCE])
             # the other two DOIs map to the documented parametric families
             r1 = cf.DOI_SHAPE_REPOSITORIES["10.1103/PhysRevX.4.011024"]
             ok = [type(x).__name__ for x in r1] == ["Family323Plus", "Family423", "Family523"]
